@@ -46,11 +46,38 @@ struct Model {
 	long faults_seen = 0;
 	uint64_t ops = 0;
 
-	Model() { pool = new Pool(policy); g_shadow = &st; st.protocol_flag = [](const std::string &k, const std::string &m) { flag("C03", "protocol:" + k, m); }; }
-	~Model() { delete pool; shadow_release_all(st); g_shadow = nullptr; }
+	// every other history goes through the frg::slab_allocator front end (allocate/free/deallocate/reallocate/get_size) instead of
+	// calling the pool directly: the wrapper is part of the allocator's interface, and what it adds must keep the same promises
+	static inline uint64_t s_models = 0;
+	bool via_wrapper = false;
+	frg::slab_allocator<Policy, Mutex> *wrap = nullptr;
+	void *api_allocate(size_t n) { return via_wrapper ? wrap->allocate(n) : pool->allocate(n); }
+	void *api_realloc(void *p, size_t n) { return via_wrapper ? wrap->reallocate(p, n) : pool->realloc(p, n); }
+	void api_free(void *p) { if(via_wrapper) wrap->free(p); else pool->free(p); }
+	void api_deallocate(void *p, size_t n) { if(via_wrapper) wrap->deallocate(p, n); else pool->deallocate(p, n); }
+	size_t api_get_size(void *p) { return via_wrapper ? wrap->get_size(p) : pool->get_size(p); }
+	Model() { pool = new Pool(policy); via_wrapper = (s_models++ % 2) == 1; wrap = new frg::slab_allocator<Policy, Mutex>(pool); if(via_wrapper) count("histories_through_slab_allocator"); g_shadow = &st; st.protocol_flag = [](const std::string &k, const std::string &m) { flag("C03", "protocol:" + k, m); }; }
+	~Model() { delete wrap; delete pool; shadow_release_all(st); g_shadow = nullptr; }
 
 	static uint8_t pat_byte(uint64_t pat, size_t i) { return (uint8_t)((pat >> ((i % 8) * 8)) ^ (i * 131)); }
 	size_t writable(const Block &b) const { return Policy::poisoning ? b.req : std::max(b.req, b.size); } // beyond the request, poisoned bytes are not the caller's
+	// Block contents are the caller's business: a third of the blocks start with the address of another live block of the same slab
+	// (what the nodes of an intrusive list hold) - a pool that inspects user data to guess at double frees and the like trips here.
+	// The pattern generator makes the first word (pat ^ K); choosing pat = target ^ K puts the pointer there.
+	static uint64_t pat_for_first_word(uint64_t target) { uint64_t k = 0; for(size_t i = 0; i < 8; i++) k |= (uint64_t)(uint8_t)(i * 131) << (8 * i); return target ^ k; }
+	void maybe_pointer_content(uintptr_t p, Block &b) {
+		if(ops % 3 != 0 || writable(b) < 8 || b.large) return;
+		auto it = live.find(p);
+		uintptr_t target = 0;
+		if(it != live.end()) {
+			auto nx = std::next(it);
+			if(nx != live.end() && nx->second.mapping == b.mapping && !nx->second.large) target = nx->first;
+			else if(it != live.begin()) { auto pv = std::prev(it); if(pv->second.mapping == b.mapping && !pv->second.large) target = pv->first; }
+		}
+		if(!target) target = p; // a self-pointer (one-element circular list)
+		b.pat = pat_for_first_word(target);
+		count("blocks_holding_a_pointer_into_their_own_slab");
+	}
 	void fill(uintptr_t p, const Block &b) { auto *d = (uint8_t *)p; size_t n = writable(b); for(size_t i = 0; i < n; i++) d[i] = pat_byte(b.pat, i); }
 	bool verify(uintptr_t p, const Block &b, size_t upto, const char *when) {
 		auto *d = (uint8_t *)p; size_t n = std::min(writable(b), upto);
@@ -99,7 +126,7 @@ struct Model {
 
 	// C01 oracle on a freshly returned block
 	bool admit(uintptr_t p, size_t req, const char *opname, bool fresh_expected) {
-		size_t s = pool->get_size((void *)p);
+		size_t s = api_get_size((void *)p);
 		size_t need = std::max<size_t>(req, 1);
 		if(s < need) { flag("C01", "too-small", strf("%s(%zu) returned a block whose reported size is %zu", opname, req, s)); return false; }
 		Mapping *m = mapping_of(p, s);
@@ -166,7 +193,7 @@ struct Model {
 	uintptr_t do_allocate(size_t n, bool via_realloc_null = false) {
 		begin_op();
 		long fails0 = st.n_failed;
-		void *r = via_realloc_null ? pool->realloc(nullptr, n) : pool->allocate(n);
+		void *r = via_realloc_null ? api_realloc(nullptr, n) : api_allocate(n);
 		const char *opn = via_realloc_null ? "realloc(null," : "allocate(";
 		g_trace += strf("%s%zu)=%p ", opn, n, r);
 		held_check(opn);
@@ -184,12 +211,13 @@ struct Model {
 		if(!r) { flag("C04", "null-without-failure", strf("%s%zu) returned null although every map() call succeeded", opn, n)); end_op_accounting(opn); return 0; }
 		uintptr_t p = (uintptr_t)r;
 		if(!admit(p, n, opn, true)) { end_op_accounting(opn); return 0; }
-		size_t s = pool->get_size(r);
+		size_t s = api_get_size(r);
 		Mapping *m = st.find(p);
 		Block b{n, s, ops * 0x9E3779B97F4A7C15ull + n, 0, m->base, false};
 		classify(b, m, opn);
 		m->live_blocks++;
 		live[p] = b;
+		maybe_pointer_content(p, live[p]); b = live[p];
 		fill(p, b);
 		poison_check_live(p, b, opn);
 		end_op_accounting(opn);
@@ -209,14 +237,14 @@ struct Model {
 		auto it = live.find(p);
 		Block b = it->second;
 		verify(p, b, b.size, "before free");
-		if(pool->get_size((void *)p) != b.size) flag("C01", "size-changed", strf("reported size of live block %p changed from %zu to %zu", (void *)p, b.size, pool->get_size((void *)p)));
+		if(api_get_size((void *)p) != b.size) flag("C01", "size-changed", strf("reported size of live block %p changed from %zu to %zu", (void *)p, b.size, api_get_size((void *)p)));
 		begin_op();
 		Mapping *m = st.find(p);
 		uintptr_t mbase = m ? m->base : 0;
 		if(m) { m->live_blocks--; if(m->delta_known) gone[m->base] = m->pages_delta; }
 		live.erase(it);
-		if(how == 0) { pool->free((void *)p); g_trace += strf("free(%p) ", (void *)p); }
-		else { pool->deallocate((void *)p, dealloc_size); g_trace += strf("deallocate(%p,%zu) ", (void *)p, dealloc_size); }
+		if(how == 0) { api_free((void *)p); g_trace += strf("free(%p) ", (void *)p); }
+		else { api_deallocate((void *)p, dealloc_size); g_trace += strf("deallocate(%p,%zu) ", (void *)p, dealloc_size); }
 		held_check("free");
 		after_release(p, b, mbase, "free");
 		end_op_accounting("free");
@@ -242,7 +270,7 @@ struct Model {
 			Mapping *m = st.find(p); uintptr_t mbase = m ? m->base : 0;
 			if(m) { m->live_blocks--; if(m->delta_known) gone[m->base] = m->pages_delta; }
 			live.erase(it);
-			void *r = pool->realloc((void *)p, 0);
+			void *r = api_realloc((void *)p, 0);
 			g_trace += strf("realloc(%p,0)=%p ", (void *)p, r);
 			held_check("realloc");
 			if(r) flag("C02", "realloc-zero-nonnull", "realloc(p, 0) returned a non-null pointer");
@@ -254,7 +282,7 @@ struct Model {
 		long fails0 = st.n_failed;
 		Mapping *m0 = st.find(p); uintptr_t mbase0 = m0 ? m0->base : 0;
 		if(m0 && m0->delta_known) gone[mbase0] = m0->pages_delta;
-		void *r = pool->realloc((void *)p, n);
+		void *r = api_realloc((void *)p, n);
 		g_trace += strf("realloc(%p,%zu)=%p ", (void *)p, n, r);
 		held_check("realloc");
 		bool failed_map = st.n_failed > fails0;
@@ -262,7 +290,7 @@ struct Model {
 			if(!failed_map) flag("C04", "null-without-failure", strf("realloc(%p,%zu) returned null although every map() call succeeded", (void *)p, n));
 			else { faults_seen++; count(b.large ? "fault_site:copying-realloc-large-to-larger" : n > frg_max_bucket() ? "fault_site:copying-realloc-small-to-large" : "fault_site:copying-realloc-small-to-small"); }
 			// source must be untouched
-			if(pool->get_size((void *)p) != b.size) flag("C04", "source-changed-by-failed-realloc", "reported size of realloc's source changed after a failed realloc");
+			if(api_get_size((void *)p) != b.size) flag("C04", "source-changed-by-failed-realloc", "reported size of realloc's source changed after a failed realloc");
 			verify(p, b, b.size, "after a failed realloc (source must stay valid)");
 			poison_check_live(p, b, "after a failed realloc");
 			if(!st.destroyed_in_op.empty()) flag("C04", "source-released-by-failed-realloc", "a failed realloc unmapped memory");
@@ -275,7 +303,7 @@ struct Model {
 		if(q == p) {
 			// in place: must still be big enough, unpoisoned over the new request, content intact
 			if(!st.destroyed_in_op.empty() || !st.created_in_op.empty()) flag("C02", "inplace-realloc-remapped", "an in-place realloc mapped or unmapped memory");
-			size_t s = pool->get_size(r);
+			size_t s = api_get_size(r);
 			if(s != b.size) flag("C01", "size-changed", strf("reported size changed from %zu to %zu by an in-place realloc", b.size, s));
 			if(s < n) {
 				// A large block has its reservation to itself: if the granted request still lies inside it, the owner may use all n bytes
@@ -300,7 +328,7 @@ struct Model {
 		{ auto om = st.maps.find(mbase0); if(om != st.maps.end() && om->second.live_blocks) om->second.live_blocks--; } // (the old mapping may be gone already)
 		if(!admit(q, n, "realloc", true)) { end_op_accounting("realloc"); return 0; }
 		{ auto *d = (uint8_t *)q; for(size_t i = 0; i < keep; i++) if(d[i] != pat_byte(b.pat, i)) { flag("C02", "realloc-lost-prefix", strf("moving realloc(%zu->%zu) did not preserve byte %zu of the old contents", b.req, n, i)); break; } }
-		size_t s = pool->get_size(r);
+		size_t s = api_get_size(r);
 		Mapping *m = st.find(q);
 		Block nb{n, s, b.pat ^ (ops << 13) ^ n, 0, m->base, false};
 		classify(nb, m, "realloc");
@@ -322,8 +350,8 @@ struct Model {
 	void null_ops() {
 		begin_op();
 		uint64_t c0 = st.n_map + st.n_unmap + st.n_poison + st.n_unpoison + st.n_unpoison_expand;
-		pool->free(nullptr); pool->deallocate(nullptr, 0); pool->deallocate(nullptr, 64);
-		if(pool->get_size(nullptr) != 0) flag("C02", "get_size-null", "get_size(nullptr) != 0");
+		api_free(nullptr); api_deallocate(nullptr, 0); api_deallocate(nullptr, 64);
+		if(api_get_size(nullptr) != 0) flag("C02", "get_size-null", "get_size(nullptr) != 0");
 		uint64_t c1 = st.n_map + st.n_unmap + st.n_poison + st.n_unpoison + st.n_unpoison_expand;
 		if(c1 != c0) flag("C02", "free-null-not-noop", "free/deallocate of null invoked a policy callback");
 		held_check("free(null)");
@@ -336,7 +364,7 @@ struct Model {
 		size_t step = live.size() > 600 ? live.size() / 300 : 1, i = 0;
 		for(auto &kv : live) {
 			if(i++ % step) continue;
-			if(pool->get_size((void *)kv.first) != kv.second.size) { flag("C01", "size-changed", strf("reported size of live block %p changed from %zu to %zu (%s)", (void *)kv.first, kv.second.size, pool->get_size((void *)kv.first), when)); break; }
+			if(api_get_size((void *)kv.first) != kv.second.size) { flag("C01", "size-changed", strf("reported size of live block %p changed from %zu to %zu (%s)", (void *)kv.first, kv.second.size, api_get_size((void *)kv.first), when)); break; }
 			if(!verify(kv.first, kv.second, kv.second.size, when)) break;
 			poison_check_live(kv.first, kv.second, when);
 		}
@@ -379,7 +407,7 @@ static void calibrate(Model<Policy, Mutex> &m) {
 		for(int b = 0; b < Policy::num_buckets; b++) {
 			size_t cls = b < 4 ? (size_t)8 << b : (size_t)64 << (b - 3);
 			uint64_t maps0 = scratch.st.n_map; size_t n = 0;
-			while(scratch.st.n_map < maps0 + 2 && n < 200000) { void *p = scratch.pool->allocate(cls); if(!p) break; n++; }
+			while(scratch.st.n_map < maps0 + 2 && n < 200000) { void *p = scratch.api_allocate(cls); if(!p) break; n++; }
 			cache[cls] = n - 1;
 		}
 	}
@@ -421,7 +449,9 @@ static uint64_t history(const char *mode, long long idx, uint64_t cs, unsigned n
 				else if(what < 9) {
 					Block b = m.live[v];
 					size_t n2;
-					switch(r.below(6)) { case 0: n2 = b.req / 2 + 1; break; case 1: n2 = b.size; break; case 2: n2 = b.size + 1; break; case 3: n2 = boundary_size<Policy>(r); break; case 4: n2 = b.req + 1; break; default: n2 = 0; break; }
+					switch(r.below(7)) { case 0: n2 = b.req / 2 + 1; break; case 1: n2 = b.size; break; case 2: n2 = b.size + 1; break; case 3: n2 = boundary_size<Policy>(r); break; case 4: n2 = b.req + 1; break;
+					case 5: n2 = std::max<size_t>(1, b.size / ((size_t)4 << r.below(8))); count("deep_shrinking_reallocs"); break; // to a quarter .. 1/512 of the block: a size of a much smaller (maybe still slab-less) class
+					default: n2 = 0; break; }
 					forget(v);
 					uintptr_t q = m.do_realloc(v, n2);
 					if(q) order.push_back(q);
@@ -551,8 +581,11 @@ static void fault_enum(const char *name, uint64_t cs, unsigned nops, bool pairs,
 // ------------------------------------------------------------------ requests of 2^31 .. 2^36 bytes
 // A light policy (address space only: MAP_NORESERVE, nothing but the frame header and the first/last byte of the block is touched)
 // so that sizes beyond 32 bits can be requested: the size arithmetic of the large-block path must be done in size_t throughout.
-struct HugePolicy {
-	static constexpr size_t pagesize = 0x1000;
+// PageT: the C++ type the policy declares its geometry constants with (the pool must not inherit a narrow type from it)
+template<typename PageT>
+struct HugePolicyT {
+	static constexpr PageT pagesize = 0x1000;
+	static constexpr PageT slabsize = 0x40000, sb_size = 0x40000;
 	struct M { void *raw; size_t rawlen; size_t len; };
 	std::map<uintptr_t, M> maps;
 	uint64_t bad_unmap = 0;
@@ -570,14 +603,15 @@ struct HugePolicy {
 		munmap(it->second.raw, it->second.rawlen); maps.erase(it);
 	}
 };
-static void huge_requests() {
-	if(!want_mode("huge") || g_prop == "C04") return;
+template<typename HugePolicy>
+static void huge_requests_t(const char *mode) {
+	if(!want_mode(mode) || g_prop == "C04") return;
 	static const size_t sizes[] = {(size_t(1) << 31) - 1, size_t(1) << 31, (size_t(1) << 32) - 4096, (size_t(1) << 32) - 1, size_t(1) << 32, (size_t(1) << 32) + 12345, (size_t(1) << 33) + 1, (size_t(3) << 32) + 4097, size_t(1) << 36};
 	long long idx = 0;
 	for(size_t n : sizes) for(int via_realloc = 0; via_realloc < 2; via_realloc++) {
 		long long my = idx++;
 		if(my % opt.nshards != opt.shard || !want_case(my)) continue;
-		begin_case("huge", my);
+		begin_case(mode, my);
 		case_detail("%s of %zu bytes", via_realloc ? "realloc(small block -> huge)" : "allocate", n);
 		g_case_bad = false; g_trace.clear();
 		guarded(g_prop.c_str(), [&] {
@@ -594,7 +628,7 @@ static void huge_requests() {
 			bool inside = false; for(auto &kv : pol.maps) if(a >= kv.first && a + n <= kv.first + kv.second.len && a + n > a) inside = true;
 			if(!inside) flag("C01", "outside-mapping", strf("a request of %zu bytes returned %p, which does not lie wholly inside memory obtained from the policy (largest mapping asked for: %zu bytes)", n, p, [&] { size_t m = 0; for(auto &kv : pol.maps) m = std::max(m, kv.second.len); return m; }()));
 			size_t pages1 = pool.numUsedPages();
-			if(pages1 - pages0 < n / HugePolicy::pagesize) flag("C03", "pages-not-raised", strf("numUsedPages() rose by %zu pages for a block of %zu bytes (%zu pages)", pages1 - pages0, n, n / HugePolicy::pagesize));
+			if(pages1 - pages0 < n / (size_t)HugePolicy::pagesize) flag("C03", "pages-not-raised", strf("numUsedPages() rose by %zu pages for a block of %zu bytes (%zu pages)", pages1 - pages0, n, n / (size_t)HugePolicy::pagesize));
 			if(inside && !g_case_bad) { ((volatile uint8_t *)p)[0] = 0x5a; ((volatile uint8_t *)p)[n - 1] = 0xa5; if(((volatile uint8_t *)p)[0] != 0x5a) flag("C02", "content-changed", "first byte of a huge block"); }
 			pool.free(p);
 			if(pool.numUsedPages() != pages0) flag("C03", "pages-drift", strf("numUsedPages() is %zu after the huge block was freed, %zu before it was allocated", pool.numUsedPages(), pages0));
@@ -603,8 +637,13 @@ static void huge_requests() {
 			pool.free(small);
 			for(auto &kv : pol.maps) munmap(kv.second.raw, kv.second.rawlen);
 		});
-		note_distinct(mix(hash_str("huge"), n * 2 + via_realloc)); count("huge_requests");
+		note_distinct(mix(hash_str(mode), n * 2 + via_realloc)); count("huge_requests");
 	}
+}
+static void huge_requests() {
+	huge_requests_t<HugePolicyT<size_t>>("huge");
+	huge_requests_t<HugePolicyT<unsigned int>>("huge:uint-constants");
+	huge_requests_t<HugePolicyT<int>>("huge:int-constants");
 	sample("huge: allocate / realloc-to of 2^31-1, 2^31, 2^32-4096, 2^32-1, 2^32, 2^32+12345, 2^33+1, 3*2^32+4097, 2^36 bytes on an address-space-only policy: reported size, containment, page accounting, unmap pairing");
 }
 
